@@ -21,6 +21,8 @@ struct Level {
 fn c14_program(rng: &mut Rng) -> String {
     let mut s = String::new();
     s.push_str("function mutate(o, v) -> o.tag <- v;\nfunction setp(a) -> begin a <- 99; a end;\nfunction ident(o) -> o;\n");
+    // one literal instantiated on many chains, and an overriding literal
+    s.push_str("function wrap(p) -> object extends p begin let w = 1; end;\nfunction over(p, v) -> object extends p begin function m0() -> v; function mv() -> v; end;\n");
     let base = rng.below(6);
     let base_expr = match base {
         0 => "null".to_string(),
@@ -40,6 +42,13 @@ fn c14_program(rng: &mut Rng) -> String {
         let mut methods: Vec<String> = Vec::new();
         let mut body = String::new();
         body.push_str(&format!("let f{} = {}; let tag = {}; ", i, i * 10, i));
+        // `mv` has a different parameter count at different levels
+        if rng.chance(1, 2) {
+            let ar = rng.below(3);
+            let ps: Vec<String> = (0..ar).map(|q| format!("q{}", q)).collect();
+            body.push_str(&format!("function mv({}) -> begin print(\"L{}.mv/{};\"); {} end; ", ps.join(", "), i, ar, i * 100 + 50 + ar));
+            methods.push("mv".to_string());
+        }
         let pool: Vec<String> =
             ["m0", "m1", "m2", "get", "set", "bump", "add", "eq"].iter().map(|x| x.to_string()).chain(C14_OPS.iter().map(|x| x.to_string())).collect();
         for name in pool {
@@ -77,6 +86,26 @@ fn c14_program(rng: &mut Rng) -> String {
         uniq += 1;
         let u = uniq;
         match rng.below(20) {
+            17 if rng.coin() => {
+                // the nearest `mv` decides, whatever its parameter count; a mismatch fails
+                let args = ["", "1", "1, 2"][rng.below(3)];
+                s.push_str(&format!("print(\"=~\\n\", c{}.mv({}));\n", j, args));
+            }
+            18 if rng.coin() => {
+                // the same literal on chains of different shape: resolve deep first, then a nearer override
+                let d = 1 + rng.below(3);
+                let mut deep = format!("c{}", j);
+                let mut near = format!("over(c{}, {})", j, 7000 + u);
+                for q in 0..d {
+                    deep = format!("wrap({})", deep);
+                    if q + 1 < d {
+                        near = format!("wrap({})", near);
+                    }
+                }
+                s.push_str(&format!("let dp{} = {};\nlet nr{} = wrap({});\n", u, deep, u, near));
+                let m = if levels.iter().take(j + 1).any(|l| l.methods.iter().any(|x| x == "m0")) { "m0" } else { "mv" };
+                s.push_str(&format!("print(\"=~ \", nr{}.{}());\nprint(\"=~ \", dp{}.{}());\nprint(\"=~\\n\", nr{}.{}());\n", u, m, u, m, u, m));
+            }
             19 if levels.iter().take(j + 1).any(|l| l.methods.iter().any(|x| x == "add" || x == "eq")) || base == 1 => {
                 let m = if rng.coin() { "add" } else { "eq" };
                 s.push_str(&format!("print(\"=~\\n\", c{}.{}(3));\n", j, m));
